@@ -47,6 +47,9 @@ fn check_year_days(y: i64, log: &mut Log) {
   let (dz, xz, dz2) = (t.get(y, 0).dn, t.get(y, 12).dn, t.get(y + 1, 0).dn);
   let (sb, nz, sb2) = (nearest_jiazi(dz), nearest_jiazi(xz), nearest_jiazi(dz2));
   let mut prev_mansion: Option<i64> = None;
+  // yesterday's lunar date with all its memos filled; today's officer / spirit are also read from
+  // prev_ld.next(1) (a stale memo carried over by stepping shows up only on this route)
+  let mut prev_ld: Option<tyme4rs::tyme::lunar::LunarDay> = None;
   // day nine star of the day before the year starts (continuity across 31 December -> 1 January)
   let mut prev_nine: Option<i64> = if y >= 3 { guard(|| sd_of_dn(lo - 1).get_sixty_cycle_day().get_nine_star().get_index() as i64).ok() } else { None };
   for n in lo..=hi {
@@ -122,10 +125,22 @@ fn check_year_days(y: i64, log: &mut Log) {
         out.push(("minor-ren", format!("{}", ren), format!("{}", (lm.abs() - 1 + ldd - 1).rem_euclid(6))));
       }
       let nine_now = guard(|| scd.get_nine_star().get_index() as i64).ok();
-      (out, m28, lm, nine_now)
+      if let Some(p) = &prev_ld {
+        if !cal::reform_era_near(n) {
+          let st = tyme4rs::tyme::Tyme::next(p, 1);
+          let got = (st.get_duty().get_index() as i64, st.get_twelve_star().get_index() as i64, st.get_twenty_eight_star().get_index() as i64, st.get_six_star().get_index() as i64, dn_of(&st.get_solar_day()), dn_of(&st.get_sixty_cycle_day().get_solar_day()));
+          let want = (want_duty, want_twelve, want_mansion, (lm.abs() + ldd - 2).rem_euclid(6), Some(n), Some(n));
+          if got != want {
+            out.push(("stepped-lunar-date", format!("{:?}", got), format!("{:?} (officer, spirit, mansion, six-day star, civil day, view day)", want)));
+          }
+        }
+      }
+      (out, m28, lm, nine_now, ld.clone())
     });
     match r {
-      Ok((v, m28, lm, nine_now)) => {
+      Ok((v, m28, lm, nine_now, ld_now)) => {
+        prev_ld = Some(ld_now);
+        log.count("day.stepped_from_yesterdays_warm_lunar_date", 1);
         // continuity: the star moves by exactly one step per day, except that the sequence restarts
         // (same star on two consecutive days) on a turning Jiazi day
         if let (Some(p), Some(c)) = (prev_nine, nine_now) {
@@ -162,6 +177,7 @@ fn check_year_days(y: i64, log: &mut Log) {
       Err(msg) => {
         prev_mansion = None;
         prev_nine = None;
+        prev_ld = None;
         log.violate(format!("C17/day-panic/{}", key), "day almanac", key.clone(), format!("panic: {}", msg), "no panic".into());
       }
     }
@@ -370,7 +386,7 @@ pub fn run(cfg: &Cfg) -> (Log, Meta) {
   log.floor("year.month_stars", 120_000);
   let meta = Meta {
     rule: format!(
-      "day series on every civil date of {} years{}: officer = (day branch - month branch) mod 12, Yellow/Black-path spirit from the month-branch group, mansion = (N+11) mod 28 with +1 per day and luminary = weekday, day nine star from the Jiazi days nearest the solstices, six-day star, phase, minor Ren, each by both routes where two exist; every leap-month day of {} lunar years (six-day star with the month's own number, equal to the regular twin); the 12 double-hours (hours 0,1,3..21) of {} seeded days (1/5 within -3..+12 days of a solstice): hour nine star, hour spirit, hour minor Ren by both routes; year star of every year -1..9999 and month stars of all 12 months of every sexagenary year 0..9999 (covers all 12 x 12 year-branch/month pairs), lunar-month stars in years without a leap month. Non-trivial = Jie days, nine-star turning days, leap-month days, distinct sampled days.",
+      "day series on every civil date of {} years{}: officer = (day branch - month branch) mod 12, Yellow/Black-path spirit from the month-branch group, mansion = (N+11) mod 28 with +1 per day and luminary = weekday, day nine star from the Jiazi days nearest the solstices, six-day star, phase, minor Ren, each by both routes where two exist, plus officer / spirit / mansion / six-day star read from yesterday's (memo-filled) lunar date stepped by one day; one-step-per-day continuity of the day nine star; every leap-month day of {} lunar years (six-day star with the month's own number, equal to the regular twin); the 12 double-hours (hours 0,1,3..21) of {} seeded days (1/5 within -3..+12 days of a solstice): hour nine star, hour spirit, hour minor Ren by both routes; year star of every year -1..9999 and month stars of all 12 months of every sexagenary year 0..9999 (covers all 12 x 12 year-branch/month pairs), lunar-month stars in years without a leap month. Non-trivial = Jie days, nine-star turning days, leap-month days, distinct sampled days.",
       years.len(),
       match cfg.tier {
         Tier::Thorough => " (1..9998, exhaustive)",
